@@ -51,7 +51,7 @@ META = [None, {}, {'kk': 'v'}, {'kk': D('1'), 'k2': None, 'k3': True, 'k4': DT(2
         lambda: {'ka': M.Account.from_value('Assets:M'), 'kc': M.Currency.from_value('USD'), 'kt': M.Tag.from_value('tg'),
                  'kn': M.Null.from_default(), 'km': M.Amount.from_value(D('-3'), 'USD'), 'kd': D('-7')}]
 CUSTOM_VALUES = [
-    lambda: 's', lambda: DT(2000, 1, 2), lambda: True, lambda: D('1'), lambda: D('-2'), lambda: M.Amount.from_value(D('3'), 'USD'),
+    lambda: 's', lambda: DT(2000, 1, 2), lambda: True, lambda: D('1'), lambda: D('-2'), lambda: D('-0.00'), lambda: M.Amount.from_value(D('3'), 'USD'),
     lambda: M.Amount.from_value(D('-4'), 'USD'), lambda: M.Account.from_value('Assets:C'), lambda: STR_TRICKY,
 ]
 
@@ -84,14 +84,14 @@ ALTS = {
     'values': None,   # custom: separate cell
 }
 PER_CLASS = {
-    ('Posting', 'flag'): [None, '!', 'P'], ('Posting', 'number'): [None, D('1'), D('-2.50'), D('0')], ('Posting', 'currency'): [None, 'USD'],
-    ('Balance', 'number'): [D('1'), D('-2.50')], ('Amount', 'number'): [D('1'), D('-2.50'), D('0')], ('Tolerance', 'number'): [D('0.01')],
+    ('Posting', 'flag'): [None, '!', 'P'], ('Posting', 'number'): [None, D('1'), D('-2.50'), D('0'), D('-0.00')], ('Posting', 'currency'): [None, 'USD'],
+    ('Balance', 'number'): [D('1'), D('-2.50')], ('Amount', 'number'): [D('1'), D('-2.50'), D('0'), D('-0.00')], ('Tolerance', 'number'): [D('0.01')],
     ('UnitPrice', 'number'): [None, D('3')], ('TotalPrice', 'number'): [None, D('3')], ('UnitPrice', 'currency'): [None, 'GBP'], ('TotalPrice', 'currency'): [None, 'GBP'],
     ('CostSpec', 'currency'): [None, 'EUR'], ('CostSpec', 'date'): [None, DT(2000, 1, 2)], ('CompoundAmount', 'currency'): ['EUR'],
     ('Option', 'value'): ['v', STR_TRICKY], ('Option', 'key'): ['title'], ('Pushmeta', 'value'): [None, 'v', D('-1'), True, DT(2000, 1, 2)],
-    ('MetaItem', 'value'): [None, 'v', D('-1'), False, DT(2000, 1, 2), lambda: M.Account.from_value('Assets:M'), lambda: M.Amount.from_value(D('-3'), 'USD'),
+    ('MetaItem', 'value'): [None, 'v', D('-1'), D('-0.0'), False, DT(2000, 1, 2), lambda: M.Account.from_value('Assets:M'), lambda: M.Amount.from_value(D('-3'), 'USD'),
                             lambda: M.Null.from_default(), STR_TRICKY],
-    ('NumberExpr', 'value'): [D('1'), D('-2.5'), D('0'), D('1000000')],
+    ('NumberExpr', 'value'): [D('1'), D('-2.5'), D('0'), D('1000000'), D('-0.00'), D('-0')],
     ('Transaction', 'meta'): META[:4],
 }
 CLASSES = ['Amount', 'Balance', 'Close', 'Commodity', 'CompoundAmount', 'CostSpec', 'Document', 'Event', 'Include', 'MetaItem', 'Note', 'NumberExpr',
